@@ -1197,6 +1197,10 @@ func (e *Entry) ApplyDeviate(deviateOpts ...DeviateOpt) []error {
 		})
 		for _, step := range steps {
 			dt, devSpec := step.dt, step.spec
+			// What went wrong while the deviate statement itself was
+			// read (a replacement type that does not resolve) is
+			// recorded on its entry, which no error sweep visits.
+			errs = append(errs, devSpec.Errors...)
 			switch dt {
 			case DeviationAdd, DeviationReplace:
 				if devSpec.Config != TSUnset {
